@@ -1,90 +1,27 @@
-(* C03, F22 follow-up: the update flow WITH the proposed repair notes/fix_C03_8.diff (rfbSendFramebufferUpdate keeps
-   the part of the cursor-redraw area that lies outside requestedRegion as modified instead of sending it).
-   Parallel to UpdateModel.plan_regions / model_update (which mirror the flow WITHOUT the repair and stay as they
-   are); props/C03.py reads from the source text which of the two the library has and the driver runs that one.
-   Proved here: with the repair every pixel rectangle of an update lies inside the region the client requested --
-   hence inside whatever size the client knows, across rfbNewFramebuffer, with or without NewFBSize. *)
+(* C03, F22 and its repair 0013b67 (= notes/fix_C03_8.diff): rfbSendFramebufferUpdate keeps the part of the
+   cursor-redraw area that lies outside requestedRegion as modified instead of sending it.  UpdateModel.plan_regions /
+   model_update mirror the flow WITH the repair (the library's), plan_regions_old / model_update_old the flow before
+   it; props/C03.py reads from the source text which one the library has and the driver runs that one.
+   Proved here: every pixel rectangle of an update lies inside the region the client requested -- hence inside
+   whatever size the client knows, across rfbNewFramebuffer, with or without NewFBSize; and the witness of F22 on
+   the old flow. *)
 From Coq Require Import List ZArith Bool Lia ZifyBool.
 From LV Require Import Gen.Consts_C03 Gen.Funs_C03 Region.RegionDefs Region.RegionProofs0 Region.RegionProofs
-     Wire.CountsModel Wire.CountsProofs Wire.CapsModel Wire.CapsProofs Wire.UpdateModel Wire.InsideProofs Wire.ModelProofs.
+     Wire.CountsModel Wire.CountsProofs Wire.CapsModel Wire.CapsProofs Wire.UpdateModel Wire.InsideProofs.
 Import ListNotations.
 Local Open Scope Z_scope.
 
-(* tmp = updateRegion - requested; if non-empty: modifiedRegion |= tmp (bookkeeping, C02), updateRegion &= requested *)
-Definition clip_to_requested (upd req : region) : region :=
-  if snd (rgn_sub upd req) then fst (rgn_and upd req) else upd.
-
-Definition plan_regions_clip (c1 : caps) (s : sends) (sn : snap) : plan :=
-  let copy1 := fst (rgn_sub (sn_copy sn) (sn_mod sn)) in
-  let upd0 := rgn_or (sn_mod sn) copy1 in
-  let '(upd1, ne) := rgn_and upd0 (sn_req sn) in
-  let same_cursor := (sn_clx sn =? sn_scx sn) && (sn_cly sn =? sn_scy sn) in
-  let nothing := negb ne && rgn_is_empty upd1 && (c_cursorshape c1 || same_cursor) && negb (any_send s) in
-  let ucopy0 := fst (rgn_and copy1 (sn_req sn)) in
-  let ucopy := fst (rgn_and ucopy0 (rgn_offset (sn_req sn) (sn_dx sn) (sn_dy sn))) in
-  let upd2 := fst (rgn_sub upd1 ucopy) in
-  let upd3 :=
-    if c_cursorshape c1 then upd2
-    else clip_to_requested
-           (if same_cursor then upd2
-            else redraw_cursor (sn_cursor sn) (sn_scx sn) (sn_scy sn) (sn_fbw sn) (sn_fbh sn)
-                   (redraw_cursor (sn_cursor sn) (sn_clx sn) (sn_cly sn) (sn_fbw sn) (sn_fbh sn) upd2))
-           (sn_req sn) in
-  mkPlan nothing (map to_xywh (rgn_iter false false upd3))
-         (rgn_iter (sn_dx sn >? 0) (sn_dy sn >? 0) ucopy).
-
-Definition model_update_core_clip (g : cfg) (c : caps) (sn : snap) : caps * upd_out :=
-  if c_newfbsize c && c_fbpending c then newfb_update c sn
-  else
-    let sc := decide_sends g c (sn_ledval sn) in
-    let pl := plan_regions_clip (snd sc) (fst sc) sn in
-    if pl_nothing pl then (snd sc, UNone) else render_update g (snd sc) (fst sc) sn pl.
-
-Definition model_update_clip (g : cfg) (c : caps) (sn : snap) : caps * upd_out :=
-  model_update_core_clip g (bpp24_prelude g c sn) sn.
-
-(* what the driver runs *)
-Definition model_update_sel (clip : bool) (g : cfg) (c : caps) (sn : snap) : caps * upd_out :=
-  if clip then model_update_clip g c sn else model_update g c sn.
-
-(* ---- proofs *)
-Lemma clip_ok upd req : WF upd -> WF req ->
-  WF (clip_to_requested upd req) /\
-  forall x y, rgn_mem (clip_to_requested upd req) x y = rgn_mem upd x y && rgn_mem req x y.
-Proof.
-  intros Wu Wq. unfold clip_to_requested.
-  pose proof (rgn_sub_bool upd req Wu Wq) as B. pose proof (rgn_sub_mem upd req Wu Wq) as M.
-  pose proof (rgn_sub_wf upd req Wu Wq) as Ws.
-  destruct (snd (rgn_sub upd req)).
-  - split; [apply rgn_and_wf; assumption|apply rgn_and_mem; assumption].
-  - split; [assumption|]. intros x y.
-    assert (E : rgn_is_empty (fst (rgn_sub upd req)) = true) by (destruct (rgn_is_empty (fst (rgn_sub upd req))); [reflexivity|discriminate B]).
-    pose proof (proj1 (is_empty_sem _ Ws) E x y) as Z0. rewrite M in Z0.
-    destruct (rgn_mem upd x y); [|reflexivity]. destruct (rgn_mem req x y); [reflexivity|discriminate Z0].
-Qed.
-
-Lemma redraw_cursor_wf cur cx cy W H upd : 1 <= W -> 1 <= H -> WF upd -> WF (redraw_cursor cur cx cy W H upd).
-Proof.
-  intros HW HH Wu. unfold redraw_cursor. destruct cur as [c|]; [|assumption].
-  pose proof (clip2_inside (cx - cu_xhot c) (cy - cu_yhot c) (cx - cu_xhot c + cu_w c) (cy - cu_yhot c + cu_h c)
-                           0 0 W H ltac:(lia) ltac:(lia)) as C.
-  destruct (sraClipRect2 (cx - cu_xhot c) (cy - cu_yhot c) (cx - cu_xhot c + cu_w c)
-                         (cy - cu_yhot c + cu_h c) 0 0 W H) as [[[[b x1] y1] x2] y2].
-  destruct C as (C1 & C2 & C3 & C4 & C5). destruct b; [|assumption].
-  destruct (proj1 C5 eq_refl) as [Lx Ly]. apply rgn_or_wf; [assumption|apply create_rect_wf; assumption].
-Qed.
-
-(* with the repair: every pixel rectangle of an update lies inside the requested region, hence inside any box
+(* every pixel rectangle of an update lies inside the requested region, hence inside any box
    (W', H') that contains the requests -- no hypothesis on modifiedRegion / copyRegion / the screen size *)
-Theorem plan_clip_requested : forall c1 s sn W' H',
+Theorem plan_inside_requested : forall c1 s sn W' H',
   1 <= sn_fbw sn -> 1 <= sn_fbh sn ->
   WF (sn_mod sn) -> WF (sn_req sn) -> WF (sn_copy sn) ->
   within W' H' (sn_req sn) ->
-  Forall (rect_in_screen W' H') (pl_region (plan_regions_clip c1 s sn)) /\
+  Forall (rect_in_screen W' H') (pl_region (plan_regions c1 s sn)) /\
   Forall (fun rc => let '(x1, y1, x2, y2) := rc in 0 <= x1 /\ x1 < x2 /\ x2 <= W' /\ 0 <= y1 /\ y1 < y2 /\ y2 <= H')
-         (pl_copy (plan_regions_clip c1 s sn)).
+         (pl_copy (plan_regions c1 s sn)).
 Proof.
-  intros c1 s sn W' H' HW HH Wm Wq Wc Iq. unfold plan_regions_clip.
+  intros c1 s sn W' H' HW HH Wm Wq Wc Iq. unfold plan_regions.
   set (copy1 := fst (rgn_sub (sn_copy sn) (sn_mod sn))).
   assert (Wc1 : WF copy1) by (apply rgn_sub_wf; assumption).
   set (upd0 := rgn_or (sn_mod sn) copy1).
@@ -105,21 +42,22 @@ Proof.
     apply andb_true_iff in Hm. destruct Hm as [Hm _]. rewrite Mu1 in Hm.
     apply andb_true_iff in Hm. destruct Hm as [_ Hm]. apply Iq. exact Hm. }
   cbn [pl_region pl_copy]. split.
-  - set (pre := if (sn_clx sn =? sn_scx sn) && (sn_cly sn =? sn_scy sn) then upd2
-                else redraw_cursor (sn_cursor sn) (sn_scx sn) (sn_scy sn) (sn_fbw sn) (sn_fbh sn)
-                       (redraw_cursor (sn_cursor sn) (sn_clx sn) (sn_cly sn) (sn_fbw sn) (sn_fbh sn) upd2)).
-    assert (Wp : WF pre).
-    { unfold pre. destruct ((sn_clx sn =? sn_scx sn) && (sn_cly sn =? sn_scy sn)); [assumption|].
-      apply redraw_cursor_wf; try assumption. apply redraw_cursor_wf; assumption. }
-    set (upd3 := if c_cursorshape c1 then upd2 else clip_to_requested pre (sn_req sn)).
-    assert (K : WF upd3 /\ within W' H' upd3).
-    { unfold upd3. destruct (c_cursorshape c1); [split; assumption|].
-      destruct (clip_ok pre (sn_req sn) Wp Wq) as [Wk Mk]. split; [assumption|].
-      intros x y Hm. rewrite Mk in Hm. apply andb_true_iff in Hm. apply Iq. tauto. }
-    destruct K as [Wu3 Iu3].
-    apply Forall_forall. intros r Hin. apply in_map_iff in Hin. destruct Hin as (rc & <- & Hin).
-    pose proof (iter_rect_inside false false upd3 W' H' rc Wu3 Iu3 Hin) as Hr.
-    destruct rc as [[[x1 y1] x2] y2]. cbn [to_xywh rect_in_screen]. lia.
+  - destruct (c_cursorshape c1).
+    + apply Forall_forall. intros r Hin. apply in_map_iff in Hin. destruct Hin as (rc & <- & Hin).
+      pose proof (iter_rect_inside false false upd2 W' H' rc Wu2 Iu2 Hin) as Hr.
+      destruct rc as [[[x1 y1] x2] y2]. cbn [to_xywh rect_in_screen]. lia.
+    + set (pre := if (sn_clx sn =? sn_scx sn) && (sn_cly sn =? sn_scy sn) then upd2
+                  else redraw_cursor (sn_cursor sn) (sn_scx sn) (sn_scy sn) (sn_fbw sn) (sn_fbh sn)
+                         (redraw_cursor (sn_cursor sn) (sn_clx sn) (sn_cly sn) (sn_fbw sn) (sn_fbh sn) upd2)).
+      assert (Wp : WF pre).
+      { unfold pre. destruct ((sn_clx sn =? sn_scx sn) && (sn_cly sn =? sn_scy sn)); [assumption|].
+        apply redraw_cursor_wf; try assumption. apply redraw_cursor_wf; assumption. }
+      destruct (clip_ok pre (sn_req sn) Wp Wq) as [Wk Mk].
+      assert (Ik : within W' H' (clip_to_requested pre (sn_req sn))).
+      { intros x y Hm. rewrite Mk in Hm. apply andb_true_iff in Hm. apply Iq. tauto. }
+      apply Forall_forall. intros r Hin. apply in_map_iff in Hin. destruct Hin as (rc & <- & Hin).
+      pose proof (iter_rect_inside false false _ W' H' rc Wk Ik Hin) as Hr.
+      destruct rc as [[[x1 y1] x2] y2]. cbn [to_xywh rect_in_screen]. lia.
   - apply Forall_forall. intros rc Hin.
     assert (Iuc : within W' H' ucopy).
     { intros x y Hm. unfold ucopy in Hm. rewrite (rgn_and_mem ucopy0 oreq Wuc0 Wo) in Hm.
@@ -129,81 +67,36 @@ Proof.
     destruct rc as [[[x1 y1] x2] y2]. lia.
 Qed.
 
-(* the witness of F22 (80x70 client, screen grown to 84x70, cursor moved to x = 83): without the repair a
-   rectangle reaching x = 84 is planned, with it none does; a cursor inside the request is sent either way *)
+(* the witness of F22 (80x70 client, screen grown to 84x70, cursor moved to x = 83): the flow before 0013b67 plans
+   a rectangle reaching x = 84, the repaired flow does not; a cursor inside the request is sent either way *)
 Definition f22_snap (scx : Z) : snap :=
   mkSnap rgn_empty (rgn_create_rect 0 0 80 70) rgn_empty 0 0 10 6 scx 6 (Some (mkCursor 0 0 2 2 false)) 0
          84 70 50 48 48 1 32 0 0.
 
 Lemma f22_witness :
-  pl_region (plan_regions caps_init (mkSends false false false false false false) (f22_snap 83)) = [(10, 6, 2, 2); (83, 6, 1, 2)] /\
-  pl_region (plan_regions_clip caps_init (mkSends false false false false false false) (f22_snap 83)) = [(10, 6, 2, 2)] /\
-  pl_region (plan_regions_clip caps_init (mkSends false false false false false false) (f22_snap 40)) = [(10, 6, 2, 2); (40, 6, 2, 2)].
-Proof. repeat split; vm_compute; reflexivity. Qed.
-
-(* ---- the count theorems hold for the repaired flow as well (same proofs as Wire/ModelProofs.v, over plan_regions_clip) *)
-Lemma plan_nondeg_clip : forall c1 s sn, snap_ok sn ->
-  Forall nondeg (pl_region (plan_regions_clip c1 s sn)) /\ Forall nondeg (map to_xywh (pl_copy (plan_regions_clip c1 s sn))).
+  pl_region (plan_regions_old caps_init (mkSends false false false false false false) (f22_snap 83)) = [(10, 6, 2, 2); (83, 6, 1, 2)] /\
+  ~ Forall (rect_in_screen 80 70) (pl_region (plan_regions_old caps_init (mkSends false false false false false false) (f22_snap 83))) /\
+  within 80 70 (sn_req (f22_snap 83)) /\
+  pl_region (plan_regions caps_init (mkSends false false false false false false) (f22_snap 83)) = [(10, 6, 2, 2)] /\
+  pl_region (plan_regions caps_init (mkSends false false false false false false) (f22_snap 40)) = [(10, 6, 2, 2); (40, 6, 2, 2)].
 Proof.
-  intros c1 s sn (Hcw & Hch & HW & HH & Wm & Wq & Wc & Iq).
-  destruct (plan_clip_requested c1 s sn (sn_fbw sn) (sn_fbh sn) HW HH Wm Wq Wc Iq) as [P Q]. split.
-  - eapply in_screen_nondeg. exact P.
-  - apply Forall_forall. intros r Hin. apply in_map_iff in Hin. destruct Hin as (rc & <- & Hin).
-    rewrite Forall_forall in Q. specialize (Q rc Hin). clear - Q. destruct rc as [[[x1 y1] x2] y2].
-    unfold copy_in_screen in Q. cbn [to_xywh nondeg]. lia.
+  assert (E : pl_region (plan_regions_old caps_init (mkSends false false false false false false) (f22_snap 83)) = [(10, 6, 2, 2); (83, 6, 1, 2)])
+    by (vm_compute; reflexivity).
+  split; [exact E|]. split.
+  { rewrite E. intro F. inversion F as [|? ? _ F2]; subst. inversion F2 as [|? ? B _]; subst. cbn in B. lia. }
+  split.
+  { intros x y Hm. cbn [f22_snap sn_req] in Hm. rewrite create_rect_mem in Hm. unfold rect_mem in Hm. lia. }
+  split; vm_compute; reflexivity.
 Qed.
 
-Theorem model_update_count_clip : forall g c sn c' n hs ovf,
-  g_wrap_coalesce g = true -> g_wrap_copy g = true -> snap_ok sn ->
-  (let c0 := bpp24_prelude g c sn in let sc := decide_sends g c0 (sn_ledval sn) in
-   bbox_fits g (snd sc) sn (plan_regions_clip (snd sc) (fst sc) sn)) ->
-  model_update_clip g c sn = (c', USent n hs false ovf) ->
-  phdr_count hs = Some n /\ n < 65535.
-Proof.
-  intros g c sn c' n hs ovf G1 G2 Hs Hbb Hm. cbv zeta in Hbb.
-  unfold model_update_clip, model_update_core_clip in Hm. set (c0 := bpp24_prelude g c sn) in *.
-  destruct (c_newfbsize c0 && c_fbpending c0).
-  { unfold newfb_update in Hm. injection Hm as _ Hn Hh _. subst n hs. split; [reflexivity|lia]. }
-  set (sc := decide_sends g c0 (sn_ledval sn)) in *.
-  destruct (pl_nothing (plan_regions_clip (snd sc) (fst sc) sn)); [inversion Hm|].
-  destruct (plan_nondeg_clip (snd sc) (fst sc) sn Hs) as [N1 N2].
-  destruct Hs as (Hcw & Hch & _).
-  destruct (render_count g (snd sc) (fst sc) sn _ c' n hs false ovf G1 G2 Hcw Hch N1 N2 Hbb Hm) as [A _].
-  apply A. reflexivity.
-Qed.
+Lemma f22_after_fix :
+  within 80 70 (sn_req (f22_snap 83)) /\
+  pl_region (plan_regions caps_init (mkSends false false false false false false) (f22_snap 83)) = [(10, 6, 2, 2)] /\
+  pl_region (plan_regions caps_init (mkSends false false false false false false) (f22_snap 40)) = [(10, 6, 2, 2); (40, 6, 2, 2)].
+Proof. destruct f22_witness as (_ & _ & A & B & C). split; [exact A|split; [exact B|exact C]]. Qed.
 
-Theorem model_update_total_clip : forall g c sn,
-  g_wrap_coalesce g = true -> snap_ok sn ->
-  forall why, snd (model_update_clip g c sn) <> UTrap why.
-Proof.
-  intros g c sn G1 Hs why. unfold model_update_clip, model_update_core_clip. set (c0 := bpp24_prelude g c sn).
-  destruct (c_newfbsize c0 && c_fbpending c0); [unfold newfb_update; cbv beta iota zeta; cbn [snd]; discriminate|].
-  set (sc := decide_sends g c0 (sn_ledval sn)).
-  destruct (pl_nothing (plan_regions_clip (snd sc) (fst sc) sn)); [cbn [snd]; discriminate|].
-  destruct (plan_nondeg_clip (snd sc) (fst sc) sn Hs) as [N1 N2]. destruct Hs as (Hcw & Hch & _).
-  unfold render_update, announce_sel. rewrite G1.
-  pose proof (announce_fixed_total (g_wrap_copy g) (c_pref (snd sc)) (c_lastrect (snd sc)) (sn_cmw sn) (sn_cmh sn) (sn_maxrects sn)
-                (pl_region (plan_regions_clip (snd sc) (fst sc) sn)) (map to_xywh (pl_copy (plan_regions_clip (snd sc) (fst sc) sn)))
-                (n_pseudo (fst sc)) Hcw Hch N1 N2) as T.
-  destruct (announce_fixed _ _ _ _ _ _ _ _ _) as [[[[n region'] lm] keep]|] eqn:Ea; [|contradiction].
-  (* the emission of region' cannot trap: region' is non-degenerate *)
-  assert (R' : Forall nondeg region').
-  { clear T. unfold announce_fixed in Ea.
-    assert (F : forall r n1 l nc k, Forall nondeg r -> finish_count (c_pref (snd sc)) (sn_maxrects sn) (n_pseudo (fst sc)) r n1 l nc k
-                                      = Some (n, region', lm, keep) -> Forall nondeg region').
-    { intros r n1 l nc k Hr Hf. unfold finish_count in Hf. destruct l; [inversion Hf; subst; exact Hr|].
-      destruct ((sn_maxrects sn >? 0) && negb (exempt_from_coalescing (c_pref (snd sc))) && (n1 >? sn_maxrects sn));
-        inversion Hf; subst; [apply bbox_region_nondeg|]; exact Hr. }
-    destruct (count_stage _ _ _ _ (pl_region _)) as [[n0 l0]|]; [|discriminate]. cbn [obind] in Ea.
-    destruct (l0 || _); [exact (F _ _ _ _ _ N1 Ea)|].
-    destruct (count_stage _ _ _ _ (bbox_region (pl_region _))) as [[n1 l1]|]; [|discriminate]. cbn [obind] in Ea.
-    destruct (l1 || _ || _); [exact (F _ _ _ _ _ (bbox_region_nondeg _ N1) Ea)|].
-    destruct (count_stage _ _ _ _ (bbox_region (_ ++ _))) as [[n2 l2]|]; [|discriminate]. cbn [obind] in Ea.
-    refine (F _ _ _ _ _ _ Ea). apply bbox_region_nondeg. apply Forall_app. split; [apply bbox_region_nondeg|]; assumption. }
-  assert (Erh : exists rh, region_hdrs (c_pref (snd sc)) (emit_region (c_pref (snd sc)) (c_lastrect (snd sc)) (sn_cmw sn) (sn_cmh sn) region') = Some rh).
-  { clear Ea T. induction region' as [|r t IH]; [eexists; reflexivity|]. inversion R' as [|? ? Hr Ht]; subst.
-    cbn [emit_region region_hdrs]. destruct (IH Ht) as [rh Erh]. rewrite Erh.
-    pose proof (emit_rect_count (c_pref (snd sc)) (c_lastrect (snd sc)) (sn_cmw sn) (sn_cmh sn) r Hcw Hch Hr) as Hrc.
-    destruct (emit_rect _ _ _ _ r); [eexists; reflexivity|eexists; reflexivity|contradiction]. }
-  destruct Erh as [rh Erh]. rewrite Erh. cbv beta iota zeta. cbn [snd]. discriminate.
-Qed.
+Lemma f22_before_fix :
+  within 80 70 (sn_req (f22_snap 83)) /\
+  ~ Forall (rect_in_screen 80 70)
+           (pl_region (plan_regions_old caps_init (mkSends false false false false false false) (f22_snap 83))).
+Proof. destruct f22_witness as (_ & A & B & _). split; [exact B|exact A]. Qed.
